@@ -5,3 +5,7 @@ CLAIMED['C15'] = (
     'CrossHair+z3 symbolic execution of dawgie.Version operators over unbounded ints; bounded symbolic exploration of schedule.build version diffs',
     'Order lemma is confirmed over all paths for all non-negative integer components (no bound); the scheduling clause is bounded by engine size.',
     _BASE_NOTE, 'DESIGN.md C15')
+CLAIMED['C14'] = (
+    'CrossHair+z3 symbolic execution of the real dataReceived/receive reassembly loops and security.TwistedWrapper over fully symbolic byte streams (two-chunk == one-chunk == reference parser lemma)',
+    'Confirmed over all paths for all byte values within the stream-length bound; induction over chunks is a paper argument on top of the discharged two-chunk lemma.',
+    _BASE_NOTE, 'DESIGN.md C14')
